@@ -64,7 +64,7 @@ func TestVerifC41Stress(t *testing.T) {
 	r := verifkit.Start(t, "C41", "stress")
 	defer r.Finish("repetition = fresh handler; 8 producers x 12 produce requests (acks -1/1/0 mixed), 6 fetchers x 40 fetches at random offsets and byte limits, 2 ListOffsets callers, all on 2 partitions of one topic; buffer flush threshold 2 batches, index interval 2, cache 1200 bytes (about 3 segments), read-ahead 2, S3 calls sleep 0-200us and ~1% of uploads fail; the race detector watches; non-trivial = repetition in which prefetch downloads, cache hits and evictions all occurred",
 		"a clean run means no race was observed on these executions")
-	n := r.N(30, 400)
+	n := r.N(30, 1500)
 	for ci := 0; ci < n; ci++ {
 		rng := r.Rand(ci)
 		v := newVS3()
